@@ -69,14 +69,15 @@ func (b *BufferBatchGetter) BatchGet(ctx context.Context, keys [][]byte, options
 	}
 	shrinkKeys := make([][]byte, 0, len(keys)-len(bufferValues))
 	for _, key := range keys {
-		val, ok := bufferValues[string(key)]
-		if !ok {
+		if _, ok := bufferValues[string(key)]; !ok {
 			shrinkKeys = append(shrinkKeys, key)
-			continue
 		}
-		// the deleted key should be removed from the result, and also no need to snapshot read it again.
+	}
+	// the deleted key should be removed from the result, and also no need to snapshot read it again.
+	// It is removed only after the whole key list has been examined: `keys` may hold the same key more than once.
+	for key, val := range bufferValues {
 		if val.IsValueEmpty() {
-			delete(bufferValues, string(key))
+			delete(bufferValues, key)
 		}
 	}
 	storageValues, err := b.snapshot.BatchGet(ctx, shrinkKeys, options...)
@@ -117,14 +118,15 @@ func (b *BufferSnapshotBatchGetter) BatchGet(ctx context.Context, keys [][]byte,
 	}
 	shrinkKeys := make([][]byte, 0, len(keys)-len(bufferValues))
 	for _, key := range keys {
-		val, ok := bufferValues[string(key)]
-		if !ok {
+		if _, ok := bufferValues[string(key)]; !ok {
 			shrinkKeys = append(shrinkKeys, key)
-			continue
 		}
-		// the deleted key should be removed from the result, and also no need to snapshot read it again.
+	}
+	// the deleted key should be removed from the result, and also no need to snapshot read it again.
+	// It is removed only after the whole key list has been examined: `keys` may hold the same key more than once.
+	for key, val := range bufferValues {
 		if val.IsValueEmpty() {
-			delete(bufferValues, string(key))
+			delete(bufferValues, key)
 		}
 	}
 	storageValues, err := b.snapshot.BatchGet(ctx, shrinkKeys, options...)
